@@ -167,7 +167,7 @@ def boot(quiet: bool = True):
                 t = orig_parse_tree(filename, fan_contents)
             finally:
                 CLOCK.active = saved
-            if len(PARSE_TREE_MEMO) > 64:
+            if len(PARSE_TREE_MEMO) > 5000:
                 PARSE_TREE_MEMO.pop(next(iter(PARSE_TREE_MEMO)))
             PARSE_TREE_MEMO[key] = t
         else:
